@@ -290,6 +290,15 @@ pub fn list(file: &syn::File) -> Vec<Listing> {
                         .collect(),
                     line: s.span().start().line,
                 }),
+                syn::Item::Const(c) => out.push(Listing {
+                    modpath: modpath.clone(),
+                    kind: "const".into(),
+                    name: c.ident.to_string(),
+                    self_ty: String::new(),
+                    trait_: String::new(),
+                    fns: vec![],
+                    line: c.span().start().line,
+                }),
                 syn::Item::Enum(s) => out.push(Listing {
                     modpath: modpath.clone(),
                     kind: "enum".into(),
